@@ -367,6 +367,31 @@ def validate_traces(module, cfg, files, par=None, **kw):
         return list(ex.map(lambda f: validate_trace(module, cfg, f, **kw), files))
 
 
+def split_traces(files, max_bytes=6 << 20, reset='"e":"reset"'):
+    """Cut big ndjson trace files into pieces of about max_bytes at run boundaries (reset events):
+    TLC's ndJsonDeserialize holds a whole file as one value."""
+    out = []
+    for f in files:
+        if os.path.getsize(f) <= max_bytes:
+            out.append(f)
+            continue
+        k, size, fh = 0, 0, None
+        with open(f) as src:
+            for line in src:
+                if fh is None or (size >= max_bytes and reset in line.replace(" ", "")):
+                    if fh:
+                        fh.close()
+                    p = "%s.part%03d.ndjson" % (f[:-7] if f.endswith(".ndjson") else f, k)
+                    k, size = k + 1, 0
+                    fh = open(p, "w")
+                    out.append(p)
+                fh.write(line)
+                size += len(line)
+        if fh:
+            fh.close()
+    return out
+
+
 def run_of(events, i, reset="reset"):
     """The recorded run (slice between reset events) that contains 0-based line i."""
     lo = i
